@@ -2,6 +2,7 @@ package main
 
 import (
 	"bytes"
+	crand "crypto/rand"
 	"fmt"
 	"strings"
 
@@ -285,7 +286,14 @@ func c09Run(j *rt.Job, seed uint64, r *rt.Rec) {
 			if t%6 == 5 {
 				nd, err := dilithium.New()
 				if err != nil {
-					r.Inconclusive("dilithium.New: " + err.Error())
+					// the operating system's randomness works (the monitor reads it itself): a wallet that cannot be created
+					var probe [48]byte
+					if _, perr := crand.Read(probe[:]); perr != nil {
+						r.Inconclusive("no system randomness: " + perr.Error())
+						return
+					}
+					r.Eval(1)
+					r.Violate("C09/dilithium/fresh-key-not-created", "dilithium.New() returns an error although system randomness is available: "+err.Error(), jobCase(j), "a key from fresh randomness", err.Error())
 					return
 				}
 				d, label = nd, "fresh-randomness"
